@@ -484,3 +484,106 @@ Proof.
     2:{ subst sec. destruct leap eqn:El; [specialize (Hl60 eq_refl)|]; lia. }
     reflexivity.
 Qed.
+
+(** * The recogniser accepts only what the generator produces: [recognise s = Some f <-> G3339 f s] *)
+Lemma take2_inv s v r : take2 s = Some (v, r) -> s = two v ++ r /\ 0 <= v <= 99.
+Proof.
+  unfold take2, digv, is_digit. destruct s as [|a [|b t]]; try discriminate.
+  destruct ((48 <=? a) && (a <=? 57)) eqn:Ea; [|discriminate].
+  destruct ((48 <=? b) && (b <=? 57)) eqn:Eb; [|discriminate].
+  set (w := 10 * (a - 48) + (b - 48)). intros H. injection H as <- <-. subst w.
+  split; [|lia]. unfold two, dig. cbn [app]. f_equal; [lia|]. f_equal. lia.
+Qed.
+Lemma take4_inv s v r : take4 s = Some (v, r) -> s = four v ++ r /\ 0 <= v <= 9999.
+Proof.
+  unfold take4. destruct (take2 s) as [[hi r1]|] eqn:E1; [|discriminate].
+  destruct (take2 r1) as [[lo r2]|] eqn:E2; [|discriminate].
+  set (w := 100 * hi + lo). intros H. injection H as <- <-. subst w.
+  destruct (take2_inv _ _ _ E1) as [-> Hhi]. destruct (take2_inv _ _ _ E2) as [-> Hlo].
+  split; [|lia]. rewrite <- (four_split (100 * hi + lo)) by lia. rewrite <- app_assoc.
+  replace ((100 * hi + lo) / 100) with hi by lia. replace ((100 * hi + lo) mod 100) with lo by lia. reflexivity.
+Qed.
+Lemma expect_inv c s r : expect c s = Some r -> s = c :: r.
+Proof.
+  unfold expect. destruct s as [|x t]; [discriminate|]. destruct (x =? c) eqn:E; [|discriminate].
+  intros H. injection H as <-. f_equal. lia.
+Qed.
+Lemma take_digits_inv s : s = map dig (fst (take_digits s)) ++ snd (take_digits s)
+  /\ forallb is_dig (fst (take_digits s)) = true.
+Proof.
+  induction s as [|c t IH]; [split; reflexivity|]. cbn [take_digits]. unfold is_digit.
+  destruct ((48 <=? c) && (c <=? 57)) eqn:E.
+  - destruct (take_digits t) as [ds r]. cbn [fst snd] in *. destruct IH as [IH1 IH2].
+    cbn [map app forallb]. rewrite IH2. split; [|unfold is_dig; lia].
+    unfold dig at 1. f_equal; [lia|exact IH1].
+  - split; reflexivity.
+Qed.
+Lemma rec_frac_inv s ds r : rec_frac s = Some (ds, r) -> s = render_frac ds ++ r /\ forallb is_dig ds = true.
+Proof.
+  unfold rec_frac. destruct s as [|c t]; [intros H; injection H as <- <-; split; reflexivity|].
+  destruct (c =? 46) eqn:E; [|intros H; injection H as <- <-; split; reflexivity].
+  destruct (take_digits_inv t) as [H1 H2]. destruct (take_digits t) as [[|d ds'] r']; [discriminate|].
+  cbn [fst snd] in *. intros H. injection H as <- <-. split; [|exact H2].
+  unfold render_frac. cbn [app]. f_equal; [lia|exact H1].
+Qed.
+Lemma rec_numeric_inv sg s z r : rec_numeric sg s = Some (z, r) ->
+  exists hh mm, z = Numeric sg hh mm /\ s = two hh ++ [58] ++ two mm ++ r /\ 0 <= hh <= 99 /\ 0 <= mm <= 99.
+Proof.
+  unfold rec_numeric. destruct (take2 s) as [[hh s1]|] eqn:E1; [|discriminate]. cbn [obind].
+  destruct (expect 58 s1) as [s2|] eqn:E2; [|discriminate]. cbn [obind].
+  destruct (take2 s2) as [[mm s3]|] eqn:E3; [|discriminate]. cbn [obind].
+  intros H. injection H as <- <-.
+  destruct (take2_inv _ _ _ E1) as [-> Hh]. rewrite (expect_inv _ _ _ E2). destruct (take2_inv _ _ _ E3) as [-> Hm].
+  exists hh, mm. repeat split; try lia.
+Qed.
+Lemma rec_zone_inv s z r : rec_zone s = Some (z, r) -> s = render_zone z ++ r /\ wf_zone z = true.
+Proof.
+  unfold rec_zone. destruct s as [|c t]; [discriminate|].
+  destruct ((c =? 90) || (c =? 122)) eqn:Ez. { intros H. injection H as <- <-. split; [reflexivity|exact Ez]. }
+  destruct (c =? 43) eqn:E43.
+  { intros H. destruct (rec_numeric_inv _ _ _ _ H) as (hh & mm & -> & -> & Hh & Hm).
+    assert (c = 43) by lia. subst c. split; [reflexivity|]. cbn [wf_zone]. unfold is2. lia. }
+  destruct (c =? 45) eqn:E45.
+  { intros H. destruct (rec_numeric_inv _ _ _ _ H) as (hh & mm & -> & -> & Hh & Hm).
+    assert (c = 45) by lia. subst c. split; [reflexivity|]. cbn [wf_zone]. unfold is2. lia. }
+  destruct t as [|c2 [|c3 t']]; try discriminate.
+  destruct ((c =? 226) && (c2 =? 136) && (c3 =? 146)) eqn:E; [|discriminate].
+  intros H. destruct (rec_numeric_inv _ _ _ _ H) as (hh & mm & -> & -> & Hh & Hm).
+  assert (c = 226 /\ c2 = 136 /\ c3 = 146) as (-> & -> & ->) by lia.
+  split; [reflexivity|]. cbn [wf_zone]. unfold is2. lia.
+Qed.
+Theorem recognise_sound s f : recognise s = Some f -> G3339 f s.
+Proof.
+  unfold recognise. destruct (recognise_prefix s) as [[f' rest]|] eqn:E; [|discriminate].
+  destruct rest; [|discriminate]. intros H. injection H as <-. revert E. unfold recognise_prefix.
+  destruct (take4 s) as [[y s1]|] eqn:E1; [|discriminate]. cbn [obind].
+  destruct (expect 45 s1) as [s2|] eqn:E2; [|discriminate]. cbn [obind].
+  destruct (take2 s2) as [[mo s3]|] eqn:E3; [|discriminate]. cbn [obind].
+  destruct (expect 45 s3) as [s4|] eqn:E4; [|discriminate]. cbn [obind].
+  destruct (take2 s4) as [[d s5]|] eqn:E5; [|discriminate]. cbn [obind].
+  destruct s5 as [|sepc s6]; [discriminate|]. destruct (is_sep sepc) eqn:Es; [|discriminate]. cbn [negb].
+  destruct (take2 s6) as [[h s7]|] eqn:E7; [|discriminate]. cbn [obind].
+  destruct (expect 58 s7) as [s8|] eqn:E8; [|discriminate]. cbn [obind].
+  destruct (take2 s8) as [[mi s9]|] eqn:E9; [|discriminate]. cbn [obind].
+  destruct (expect 58 s9) as [s10|] eqn:E10; [|discriminate]. cbn [obind].
+  destruct (take2 s10) as [[sec s11]|] eqn:E11; [|discriminate]. cbn [obind].
+  destruct (rec_frac s11) as [[fr s12]|] eqn:E12; [|discriminate]. cbn [obind].
+  destruct (rec_zone s12) as [[z s13]|] eqn:E13; [|discriminate]. cbn [obind].
+  intros H. injection H as <- ->.
+  destruct (take4_inv _ _ _ E1) as [-> Hy]. rewrite (expect_inv _ _ _ E2).
+  destruct (take2_inv _ _ _ E3) as [-> Hmo]. rewrite (expect_inv _ _ _ E4).
+  destruct (take2_inv _ _ _ E5) as [-> Hd].
+  destruct (take2_inv _ _ _ E7) as [-> Hh]. rewrite (expect_inv _ _ _ E8).
+  destruct (take2_inv _ _ _ E9) as [-> Hmi]. rewrite (expect_inv _ _ _ E10).
+  destruct (take2_inv _ _ _ E11) as [-> Hsec].
+  destruct (rec_frac_inv _ _ _ E12) as [-> Hfr]. destruct (rec_zone_inv _ _ _ E13) as [-> Hz].
+  split.
+  - unfold wf, is2. cbn [f_year f_month f_day f_sep f_hour f_minute f_second f_frac f_zone].
+    rewrite Hfr, Hz. unfold is_sep in Es. lia.
+  - unfold render. cbn [f_year f_month f_day f_sep f_hour f_minute f_second f_frac f_zone].
+    rewrite app_nil_r. reflexivity.
+Qed.
+Theorem recognise_iff s f : recognise s = Some f <-> G3339 f s.
+Proof.
+  split; [apply recognise_sound|]. intros [Hw ->]. apply recognise_render. exact Hw.
+Qed.
